@@ -29,6 +29,10 @@ CLAIMS["C12"] = ("the canonical form's attribute table (kept set and order vs th
                  "static analysis: constant-table evaluation + per-literal edge-region classification + call/dataflow shape over MIR")
 CLAIMS["C20"] = ("parse_list's output is filled in a loop over input_order (no map iteration), duplicate full names among the inputs are rejected on the Some edge of the input-table insert in both entry points, every insert into the parser's definition table is checked (previous value tested or guarded by contains_key on the same key), closed and re-verified inventory of hash-order iterations in the parser's call-graph slice",
                  "static analysis: loop/def-use shape + Option-edge regions + insert discipline + hash-iteration inventory over MIR")
+CLAIMS["C11"] = ("gate rules on every acceptance path of the parser (Name, namespace, field name, field default, enum symbols / duplicates / default, duplicate record fields, union branch rules, fixed size, unresolved references: the construction is dominated by the Ok edge of its check and the failure edge is Err-only), who-may-construct sets for Name and UnionSchema, imported definition-table insert discipline (unique full names), closed panic-site inventory over the parse and post-parse call-graph slice",
+                 "static analysis: dominance gates + who-may-construct + panic-site inventory over MIR")
+CLAIMS["C02"] = ("per-shape wire-token sequences of decode_internal and encode_internal (zig-zag class, raw lengths, byte order of float/u32/big-integer conversions, uuid text/binary form, block headers, recursion, loop depth; one sequence per success path) equal the hand-transcribed specification table for all 31 schema shapes; both block-header readers read the byte size exactly on the negative-count edge, negate with a checked operation and end on 0; the buffered and direct serde block writers emit negative count + byte size + payload and the 0 terminator; big-decimal framing and the duration byte layout mirror each other",
+                 "static analysis: variant-partitioned path summaries over MIR reduced to a token alphabet of resolved callees, compared with a specification table")
 NA_DEFAULT = "check under construction in this round (see DESIGN.md); not yet claimed"
 
 
